@@ -12,6 +12,7 @@ for _b in (8, 16, 32, 64, 128):
     INT_RANGE["u%d" % _b] = (0, (1 << _b) - 1)
 INT_RANGE["isize"] = INT_RANGE["i64"]
 INT_RANGE["usize"] = INT_RANGE["u64"]
+INT_RANGE["char"] = (0, 0x10FFFF)      # `u8 as char`: the code point
 
 
 class Unknown(Exception):
@@ -39,8 +40,11 @@ CMP = {"Eq": lambda a, b: a == b, "Ne": lambda a, b: a != b, "Lt": lambda a, b: 
 
 
 class Folder:
-    def __init__(self, prog, max_depth=5, opaque=None):
+    def __init__(self, prog, max_depth=5, opaque=None, effects=None, effects_names=None):
         self.opaque = opaque
+        # effects(name, folded args) -> folded result: lets a rule record calls of output routines (write_char, write_n, ..) and continue with their success value
+        self.effects = effects
+        self.effects_names = effects_names or (lambda n: True)
         self.prog = prog
         self.max_depth = max_depth
         self._paths = {}
@@ -120,6 +124,11 @@ class Folder:
             if x[0] == "agg" and x[1] == "adt":
                 adt = self.prog.adts.get(x[2])
                 return _c(adt["variants"][x[5]]["discr"] if adt else x[5])
+            if x[0] == "const" and isinstance(x[1], tuple):
+                d = dict(i for i in x[1] if isinstance(i, tuple) and len(i) == 2)
+                if "vidx" in d and "adt" in d:
+                    adt = self.prog.adts.get(d["adt"])
+                    return _c(adt["variants"][d["vidx"]]["discr"] if adt else d["vidx"])
             raise Unknown("discr " + pp(t))
         if k == "un":
             x = self.ev(t[2], env, bind, depth)
@@ -170,10 +179,19 @@ class Folder:
             if isinstance(a[1], bool) and isinstance(b[1], bool) and op in ("BitAnd", "BitOr", "BitXor"):
                 r = bool(r)
             if wo:
+                # (wrapped result, overflow flag): the flag needs the operand type, kept as a fifth element of checked-operation terms
+                ty = t[4] if len(t) > 4 else None
+                if ty in INT_RANGE and not isinstance(r, bool):
+                    lo, hi = INT_RANGE[ty]
+                    return ("agg", "tuple", None, None, (_c(wrap(r, ty)), _c(not lo <= r <= hi)), None)
                 return ("agg", "tuple", None, None, (_c(r), _c(False)), None)
             return _c(r)
         if k == "call":
             name = t[1]
+            if isinstance(name, str) and self.effects is not None:
+                r = self.effects(name, [self.ev(a, env, bind, depth) for a in t[2]]) if self.effects_names(name) else None
+                if r is not None:
+                    return r
             if isinstance(name, str) and name.startswith("std::convert::num::<impl std::convert::From<") and name.endswith(">::from"):
                 return _ident(self, [self.ev(a, env, bind, depth) for a in t[2]])
             if isinstance(name, str) and name in STD_MODELS:
@@ -190,9 +208,12 @@ class Folder:
                 # a trait method called inside a provided method (unresolved in the generic body): dispatch on the folded receiver's type
                 recv = self.ev(t[2][0], env, bind, depth)
                 r0 = recv[1] if recv[0] == "ref" else recv
-                if r0[0] == "agg" and r0[1] == "adt" and "::" in name:
+                rty = r0[2] if (r0[0] == "agg" and r0[1] == "adt") else None
+                if rty is None and r0[0] == "const" and isinstance(r0[1], tuple) and r0[1] and isinstance(r0[1][0], tuple) and r0[1][0][0] == "adt":
+                    rty = r0[1][0][1]           # a unit / constant struct receiver (e.g. `Utc`)
+                if rty is not None and "::" in name:
                     tr, meth = name.rsplit("::", 1)
-                    cand = "<%s as %s>::%s" % (r0[2], tr, meth)
+                    cand = "<%s as %s>::%s" % (rty, tr, meth)
                     if self.prog.has(cand):
                         args = [recv] + [self.ev(a, env, bind, depth) for a in t[2][1:]]
                         return self.call(cand, args, depth + 1)
@@ -372,6 +393,20 @@ def _binary_search(self, args):
     return ("agg", "adt", "std::result::Result", "Err", (_c(sum(1 for v in seq if v < k)),), 1)
 
 
+def _partition_point(self, args):
+    seq = _int_seq(args[0])
+    n = 0
+    flags = []
+    for v in seq:
+        r = _call_closure(self, args[1], [("ref", _c(v))])
+        if not _isc(r):
+            raise Unknown("partition_point predicate not folded")
+        flags.append(bool(r[1]))
+    if any(b and not a for a, b in zip(flags, flags[1:])):
+        raise Unknown("partition_point on a slice that is not partitioned (unspecified result)")
+    return _c(sum(flags))
+
+
 def _range_agg(r):
     """a promoted constant range (decoded struct constant) as an aggregate of constants"""
     if r[0] == "const" and isinstance(r[1], tuple):
@@ -503,6 +538,22 @@ def _opt_ok_or(self, args):
     return ("agg", "adt", "std::result::Result", "Ok", (o[4][0],), 0)
 
 
+def _opt_ok_or_else(self, args):
+    o, f = args
+    if not _is_opt(o):
+        raise Unknown("ok_or_else on non-constant option")
+    if o[3] == "None":
+        return ("agg", "adt", "std::result::Result", "Err", (_call_closure(self, f, []),), 1)
+    return ("agg", "adt", "std::result::Result", "Ok", (o[4][0],), 0)
+
+
+def _opt_unwrap_or_else(self, args):
+    o, f = args
+    if not _is_opt(o):
+        raise Unknown("unwrap_or_else on non-constant option")
+    return _call_closure(self, f, []) if o[3] == "None" else o[4][0]
+
+
 def _opt_or(self, args):
     a, b = args
     if not _is_opt(a):
@@ -525,10 +576,19 @@ def _into_int(self, args):
     raise Unknown("Into::into of a non-integer")
 
 
+def _as_agg(v):
+    """a decoded constant unit variant (element of a const table) in the aggregate form the folder builds for enum values"""
+    if v[0] == "const" and isinstance(v[1], tuple) and v[1] and isinstance(v[1][0], tuple) and v[1][0][0] == "adt":
+        d = dict(i for i in v[1] if isinstance(i, tuple) and len(i) == 2)
+        if "variant" in d and "vidx" in d and not d.get("fields"):
+            return ("agg", "adt", d["adt"], d["variant"], (), d["vidx"])
+    return v
+
+
 def _struct_eq(a, b):
     """structural equality of two folded values (constants and aggregates of them); Unknown if anything is not folded"""
-    a = a[1] if a[0] == "ref" else a
-    b = b[1] if b[0] == "ref" else b
+    a = _as_agg(a[1] if a[0] == "ref" else a)
+    b = _as_agg(b[1] if b[0] == "ref" else b)
     if _isc(a) and _isc(b):
         return a[1] == b[1]
     if a[0] == "agg" and b[0] == "agg":
@@ -545,7 +605,18 @@ def _eq_model(neg):
     return f
 
 
+def _clone(self, args):
+    a = args[0]
+    return a[1] if a[0] == "ref" else a       # Clone of a folded (Copy-like) value is the value
+
+
 STD_MODELS = {
+    "core::slice::<impl [T]>::partition_point": _partition_point,
+    "<std::option::Option<T> as std::clone::Clone>::clone": _clone,
+    "std::clone::Clone::clone": _clone,
+    "std::clone::impls::<impl std::clone::Clone for i32>::clone": _clone,
+    "std::clone::impls::<impl std::clone::Clone for i64>::clone": _clone,
+    "std::clone::impls::<impl std::clone::Clone for u32>::clone": _clone,
     "<std::option::Option<T> as std::cmp::PartialEq>::eq": _eq_model(False),
     "<std::option::Option<T> as std::cmp::PartialEq>::ne": _eq_model(True),
     "<weekday::Weekday as std::cmp::PartialEq>::eq": _eq_model(False),
@@ -560,6 +631,8 @@ STD_MODELS = {
     "std::option::Option::<T>::map": _opt_map,
     "std::option::Option::<T>::map_or": _opt_map_or,
     "std::option::Option::<T>::ok_or": _opt_ok_or,
+    "std::option::Option::<T>::ok_or_else": _opt_ok_or_else,
+    "std::option::Option::<T>::unwrap_or_else": _opt_unwrap_or_else,
     "std::option::Option::<T>::or": _opt_or,
     "std::option::Option::<T>::is_some": _opt_is("Some"),
     "std::option::Option::<T>::is_none": _opt_is("None"),
@@ -590,6 +663,7 @@ for _b in (8, 16, 32, 64):
         STD_MODELS[_p + "div_euclid"] = lambda self, args: _c((_ints(args)[0] - _ints(args)[0] % abs(_ints(args)[1])) // _ints(args)[1])
         STD_MODELS[_p + "abs"] = (lambda ty: lambda self, args: _c(wrap(abs(_ints(args)[0]), ty)))(_t)
         STD_MODELS[_p + "unsigned_abs"] = lambda self, args: _c(abs(_ints(args)[0]))
+        STD_MODELS[_p + "abs_diff"] = lambda self, args: _c(abs(_ints(args)[0] - _ints(args)[1]))
         STD_MODELS[_p + "signum"] = lambda self, args: _c((_ints(args)[0] > 0) - (_ints(args)[0] < 0))
         STD_MODELS[_p + "checked_add"] = (lambda ty: lambda self, args: _checked(lambda a, b: a + b)(self, args, ty))(_t)
         STD_MODELS[_p + "checked_sub"] = (lambda ty: lambda self, args: _checked(lambda a, b: a - b)(self, args, ty))(_t)
@@ -632,6 +706,10 @@ for _a in _INT_RANGES:
 def show(v):
     """printable form of a folded value"""
     if v[0] == "const":
+        if isinstance(v[1], tuple) and v[1] and isinstance(v[1][0], tuple) and v[1][0][0] == "adt":
+            d = dict(i for i in v[1] if isinstance(i, tuple) and len(i) == 2)
+            if "variant" in d and not d.get("fields"):
+                return d["adt"].split("::")[-1] + "::" + d["variant"]        # a constant unit variant (e.g. an element of a const table) like its aggregate form
         return v[1]
     if v[0] == "agg":
         if v[1] == "adt":
